@@ -222,7 +222,7 @@ def run(ctx):
         r5.inst({'body': b.id, 'site': mirq.site(b, bb), 'permission': pn}, ok=ok)
         if not ok:
             r5.fail('%s/check' % b.nid, mirq.site(b, bb), 'check_permission whose argument is not a builtin permission constant or whose result is not propagated with `?`')
-    r5.need(8)
+    r5.need(5)
 
     # R11.3 defaults
     r3 = ctx.rule('R11.3', 'permission constants carry the documented defaults; lookup falls back to them')
